@@ -45,11 +45,37 @@ def stmt_str(s):
         return "query(%s)." % atom_str(s[1])
     if k == "evidence":
         return "evidence(%s,%s)." % (atom_str(s[1]), "true" if s[2] else "false")
+    if k == "pragma":
+        return "%% %s" % s[1]
     raise ValueError(k)
 
 
+DISJ = ("pragma", "body-disjunctions")
+
+
 def render(prog):
-    return "\n".join(stmt_str(s) for s in prog) + "\n"
+    """Program text.  With the statement DISJ in the program, all the clauses of one derived predicate head (same head
+    term, non-empty bodies) are written as ONE clause whose body is the disjunction of their bodies,
+    `h :- (b1, b2 ; c1 ; d1, d2).`, at the place of the first of them: the same program under the distribution
+    semantics (so every reference and every metamorphic relation applies unchanged), but it exercises the engine's
+    evaluation of explicit disjunctions."""
+    if DISJ not in prog:
+        return "\n".join(stmt_str(s) for s in prog) + "\n"
+    groups = {}
+    for s in prog:
+        if s[0] == "rule" and s[2]:
+            groups.setdefault(s[1], []).append(s[2])
+    out, done = [], set()
+    for s in prog:
+        if s[0] == "rule" and s[2] and len(groups[s[1]]) > 1:
+            if s[1] in done:
+                continue
+            done.add(s[1])
+            alts = [", ".join(lit_str(l) for l in b) for b in groups[s[1]]]
+            out.append("%s :- (%s)." % (atom_str(s[1]), " ; ".join(alts)))
+        else:
+            out.append(stmt_str(s))
+    return "\n".join(out) + "\n"
 
 
 def vars_of(atom):
@@ -369,8 +395,8 @@ def compound_program(rng):
     return prog
 
 
-def programs(seed, n, extreme=False, compound=False, **kw):
-    """extreme=True: in a third of the programs one probabilistic fact gets probability 0.0 or 1.0 (valid
+def programs(seed, n, extreme=False, compound=False, disj=True, **kw):
+    """disj=True: a quarter of the programs are written with explicit body disjunctions (see render).  extreme=True: in a third of the programs one probabilistic fact gets probability 0.0 or 1.0 (valid
     annotations at the border of the range; weight propagation and log space treat them specially)."""
     rng = random.Random(seed)
     g = Gen(rng, **kw)
@@ -397,5 +423,8 @@ def programs(seed, n, extreme=False, compound=False, **kw):
                 if idx:
                     i = rng.choice(idx)
                     p[i] = ("fact", Fraction(rng.choice([0, 1])), p[i][2])
+            if disj and random.Random(len(out) * 7 + seed).random() < 0.25:
+                # (own generator: the stream of programs is the same with and without this option)
+                p.insert(0, DISJ)
             out.append(p)
     return out
